@@ -371,6 +371,26 @@ Theorem C05_source_beta3_slope : forall pi fib f d s b3, f_disp fib = DispScalar
 Proof. exact Proofs.FiberGen.gen_beta3_slope. Qed.
 Print Assumptions C05_source_beta3_slope.
 
+(* ROADM side: PMD and PDL of a crossing add in quadrature (Roadm.propagate), with the impairments of the profile that
+   set_roadm_paths selects: the one bound to the degree pair — id 0 included — else the first of the path type *)
+Theorem C05_source_roadm_pmd_update : forall x y : R, @FiberGen.g_roadm_pmd_update NumR x y = sqrt (x * x + y * y).
+Proof. exact Proofs.FiberGen.gen_roadm_pmd_update. Qed.
+Print Assumptions C05_source_roadm_pmd_update.
+
+Theorem C05_source_roadm_pdl_update : forall x y : R, @FiberGen.g_roadm_pdl_update NumR x y = sqrt (x * x + y * y).
+Proof. exact Proofs.FiberGen.gen_roadm_pdl_update. Qed.
+Print Assumptions C05_source_roadm_pdl_update.
+
+Theorem C05_source_roadm_profile : forall A (profiles : list (Z * Z * A)) global pt id,
+  FiberGen.g_roadm_profile profiles global pt id = roadm_profile profiles global pt id.
+Proof. exact Proofs.FiberGen.gen_roadm_profile. Qed.
+Print Assumptions C05_source_roadm_profile.
+
+Theorem roadm_profile_id0 : forall A (profiles : list (Z * Z * A)) global pt a,
+  profile_by_id profiles 0%Z = Some a -> roadm_profile profiles global pt (Some 0%Z) = Ok a.
+Proof. exact Proofs.FiberGen.roadm_profile_id0. Qed.
+Print Assumptions roadm_profile_id0.
+
 (* RamanSolver: the Euler update ('numerical' method, rational model and Num model) and the two sweeps of the iterative
    algorithm are the per-wave update of the models; the backward sweep applies the same arithmetic as the forward one
    (its indices [-i], dz[-i], lumped_losses[-i] are fixed by the template and mirrored by Raman.bwd_sweep) *)
